@@ -379,3 +379,159 @@ def check_C08(P, tier):
     R.analysed = {"files": ["src/bldfm/utils.py", "src/bldfm/interface.py", "src/bldfm/config_parser.py", "src/bldfm/solver.py", "src/bldfm/pbl_model.py"],
                   "functions": ["compute_wind_fields", "run_bldfm_single", "vertical_profiles", "ivp_solver", "steady_state_transport_solver", "latlon_to_xy", "TowerConfig.compute_local_xy"], "paths": SA.nruns}
     return R, "chain of sign/orientation identities + wiring"
+
+
+# --------------------------------------------------------------------------
+# C19 Kormann-Meixner reference
+
+
+def _param(name, pos=True):
+    x = alg.sym(name, pos=pos)
+    _atom(x).meta = "param"
+    return x
+
+
+class KMRun:
+    def __init__(self, P, stability, with_wd):
+        self.zm, self.z0, self.ws, self.ustar, self.sv = _param("zm"), _param("z0"), _param("ws"), _param("ustar"), _param("sigma_v")
+        self.Lm = _param("Lmo")
+        self.L = self.Lm if stability == "stable" else -self.Lm
+        self.xmin, self.xmax, self.ymin, self.ymax = alg.sym("xmin"), alg.sym("xmax"), alg.sym("ymin"), alg.sym("ymax")
+        self.res_ = _param("grid_res")
+        self.mx, self.my = alg.sym("mx"), alg.sym("my")
+        self.wd = alg.sym("wd") if with_wd else None
+        args = [self.zm, self.z0, self.ws, self.ustar, self.L, self.sv, Tup([self.xmin, self.xmax, self.ymin, self.ymax]), self.res_, Tup([self.mx, self.my])]
+        self.res = CM.run_paths(P, "bldfm.ffm_kormann_meixner", "estimateFootprint", args, {"wd": self.wd})
+
+
+def km_spec(R, gx, gy):
+    """K&M (2001) Eqs. 9, 11, 18, 19, 21, 31-36 written from the paper"""
+    k = KAPPA
+    x_ = R.zm / R.L
+    if R.L is R.Lm:
+        phi_m, phi_c, psi_m, n = ONE + 5 * x_, ONE + 5 * x_, 5 * x_, ONE / (ONE + 5 * x_)
+    else:
+        phi_m = alg.power(ONE - 16 * x_, Q(-1, 4))
+        phi_c = alg.power(ONE - 16 * x_, Q(-1, 2))
+        zeta = alg.power(ONE - 16 * x_, Q(1, 4))
+        psi_m = -2 * alg.log((ONE + zeta) / 2) - alg.log((ONE + zeta * zeta) / 2) + 2 * alg.arctan(zeta) - alg.atom_expr(alg.PI) / 2
+        n = (ONE - 24 * x_) / (ONE - 16 * x_)
+    m = R.ustar * phi_m / (k * R.ws)
+    kappa = k * R.zm * R.ustar / (phi_c * alg.power(R.zm, n))
+    U = R.ustar * (alg.log(R.zm / R.z0) + psi_m) / (k * alg.power(R.zm, m))
+    r = 2 + m - n
+    mu = (ONE + m) / r
+    xi = U * alg.power(R.zm, r) / (r * r * kappa)
+    gmu = alg.fn("gamma", mu, pos=True)
+    g1r = alg.fn("gamma", ONE / r, pos=True)
+    x0, y0 = gx - R.mx, gy - R.my
+    if R.wd is None:
+        x, y = x0, y0
+    else:
+        rho = alg.sqrt(x0 * x0 + y0 * y0)
+        th = alg.fn("arctan2", y0, x0) + R.wd * alg.atom_expr(alg.PI) / 180 - alg.atom_expr(alg.PI) / 2
+        x, y = rho * alg.cos(th), rho * alg.sin(th)
+    ubar = gmu / g1r * alg.power(r * r * kappa / U, m / r) * U * alg.power(x, m / r)  # Eq. 18
+    sigma = R.sv * x / ubar
+    f = ONE / gmu * alg.power(xi, mu) / alg.power(x, ONE + mu) * alg.exp(-xi / x)  # Eq. 21
+    Dy = ONE / (alg.sqrt(2 * alg.atom_expr(alg.PI)) * sigma) * alg.exp(-(y * y) / (2 * sigma * sigma))  # Eq. 9
+    return f * Dy * R.res_ * R.res_, dict(U=U, x=x, y=y, m=m, n=n)
+
+
+def km_obligations(P):
+    obs = []
+    site = "src/bldfm/ffm_kormann_meixner.py::estimateFootprint"
+    for stab in ("stable", "unstable"):
+        for with_wd in (False, True):
+            R = KMRun(P, stab, with_wd)
+            tag = "(%s, %s)" % (stab, "rotated by wd" if with_wd else "wind-aligned grid")
+            rets = [r for r in R.res if r.kind == "return"]
+            if not rets:
+                obs.append(req_ob("R-KM-FORM", site, "interpretable %s" % tag, None, detail=str([(r.kind, r.raise_desc) for r in R.res])[:300]))
+                continue
+            up, down, neg = [], [], []
+            for r in rets:
+                v = r.value
+                if not (isinstance(v, Tup) and len(v.items) == 3 and all(isinstance(i, Arr) for i in v.items)):
+                    obs.append(req_ob("R-KM-FORM", site, "returns (grid_x, grid_y, grid_ffm) %s" % tag, False))
+                    continue
+                gx, gy, ffm = v.items
+                spec, parts = km_spec(R, gx.val, gy.val)
+                pu = r.facts.possible(parts["U"].expand())
+                px = r.facts.possible(parts["x"].expand())
+                if pu <= {"-"}:
+                    neg.append((r, ffm))
+                elif px <= {"+"}:
+                    up.append((r, ffm, spec, gx, gy))
+                else:
+                    down.append((r, ffm))
+                ev = [e for e in r.events if e[0] == "dtype"]
+                obs.append(req_ob("R-DTYPE", site, "no helper stores a float into storage whose dtype is inherited from a caller-supplied argument %s" % tag, not ev,
+                                  detail="; ".join("%s %s" % (e[1], e[2]) for e in ev[:4]) or None, key={"stability": stab}))
+                sh = [e for e in r.events if e[0] == "shape"]
+                obs.append(req_ob("R-KM-FORM", site, "shape-consistent %s" % tag, not sh, detail=str(sh[:2]) if sh else None))
+            obs.append(req_ob("R-KM-FORM", site, "an upwind, a downwind and a negative-U path exist %s" % tag, bool(up) and bool(down) and bool(neg), detail="%d/%d/%d" % (len(up), len(down), len(neg))))
+            for r, ffm, spec, gx, gy in up:
+                obs.append(eq_ob("R-KM-FORM", site, "upwind cells hold f(x) * D_y(x, y) * cell area %s" % tag, ffm.val, spec,
+                                 "K&M (2001): f = xi^mu e^(-xi/x) / (Gamma(mu) x^(1+mu)); D_y Gaussian with sigma = sigma_v x / ubar(x); parameters Eqs. 11, 18, 19, 31-36", key={"stability": stab, "wd": with_wd}))
+                if isinstance(ffm.val, Expr) and not with_wd:
+                    mya = _atom(R.my)
+                    obs.append(eq_ob("R-KM-FORM", site, "symmetric about the wind axis (only y^2 occurs) %s" % tag, ffm.val.expand().subs({mya: 2 * gy.val - R.my}), ffm.val.expand()))
+                shp_ok = ffm.shape is not None and gx.shape is not None and all(a.eq(b) for a, b in zip(ffm.shape, gx.shape))
+                obs.append(req_ob("R-KM-FORM", site, "footprint grid has the shape of the coordinate grids %s" % tag, shp_ok))
+            for r, ffm in down + neg:
+                obs.append(eq_ob("R-KM-FORM", site, "cells that are not upwind (or a physically impossible U < 0) hold exactly zero %s" % tag, ffm.val, ZERO))
+    # grid: cell centres, x increasing with column, y decreasing with row
+    R = KMRun(P, "stable", False)
+    rets = [r for r in R.res if r.kind == "return"]
+    if rets:
+        gx, gy, _ = rets[0].value.items
+        obs.append(eq_ob("R-KM-FORM", site, "x coordinates are cell centres xmin + (i + 1/2) res", gx.val, R.xmin + R.res_ / 2 + alg.fn("idx", gx.shape[1], integer=True) * R.res_))
+        obs.append(eq_ob("R-KM-FORM", site, "y coordinates are cell centres ymax - (j + 1/2) res", gy.val, R.ymax - R.res_ / 2 - alg.fn("idx", gy.shape[0], integer=True) * R.res_))
+    # estimateZ0 inverts the same diabatic law
+    site_z = "src/bldfm/ffm_kormann_meixner.py::estimateZ0"
+    for stab in ("stable", "unstable"):
+        zm, ws, wd, us, mo = (SymArr(n, 1, shape=(alg.sym("n_obs", pos=True, integer=True),), pos=(n != "mo_obs" and n != "wd_obs")) for n in ("zm_obs", "ws_obs", "wd_obs", "ustar_obs", "mo_obs"))
+        facts = Facts()
+        facts.refine(mo.val, {"+"} if stab == "stable" else {"-"})
+        res = CM.run_paths(P, "bldfm.ffm_kormann_meixner", "estimateZ0", [zm, ws, wd, us, mo], {"half_wd_win": ZERO}, facts=facts)
+        rets = [r for r in res if r.kind == "return"]
+        raises = [r for r in res if r.kind == "raise"]
+        ok = bool(rets)
+        obs.append(req_ob("R-KM-Z0", site_z, "no-smoothing path is interpretable (%s)" % stab, ok if ok else None, detail=str([(r.kind, r.raise_desc, r.path) for r in res])[:300]))
+        for r in rets:
+            v = r.value
+            zv = v.val if isinstance(v, Arr) else v
+            if not isinstance(zv, Expr):
+                obs.append(req_ob("R-KM-Z0", site_z, "z0 estimate algebraic (%s)" % stab, None, detail=repr(zv)[:200]))
+                continue
+            zv = zv.expand()
+            inner = [a for a in zv.atoms() if a.kind == "fn" and a.name == "upd"]
+            if inner:
+                zv = inner[0].args[0]
+            x_ = zm.val / mo.val
+            if stab == "stable":
+                psi_m = 5 * x_
+            else:
+                zeta = alg.power(ONE - 16 * x_, Q(1, 4))
+                psi_m = -2 * alg.log((ONE + zeta) / 2) - alg.log((ONE + zeta * zeta) / 2) + 2 * alg.arctan(zeta) - alg.atom_expr(alg.PI) / 2
+            obs.append(eq_ob("R-KM-Z0", site_z, "z0 solves ws = ustar/k (log(zm/z0) + psi_m) (%s)" % stab, zv, zm.val * alg.exp(psi_m - KAPPA * ws.val / us.val), "K&M Eq. 31 inverted", key={"stability": stab}))
+            obs.append(req_ob("R-KM-Z0", site_z, "without smoothing the estimate does not depend on the wind direction (%s)" % stab, _atom(wd.val) not in zv.atoms()))
+    return obs
+
+
+def check_C19(P, tier):
+    R = Result("C19", tier)
+    R.min_obligations = 30
+    R.explanation = ("estimateFootprint is interpreted abstractly on both stability branches, with and without a wind direction; the value stored in upwind cells is compared, "
+                     "as an exact identity with symbolic exponents (m, n, r = 2+m-n, mu = (1+m)/r), with the published crosswind-integrated footprint times the Gaussian "
+                     "crosswind distribution times the cell area written from Kormann & Meixner (2001); cells that are not upwind, and the U<0 early return, hold exactly "
+                     "zero; the value is even in the crosswind coordinate; with a wind direction the coordinates are rotated by theta + pi wd/180 - pi/2 about the "
+                     "receptor; (R-DTYPE) no helper stores a float into storage whose dtype is inherited from a caller-supplied scalar, so integers and floats behave "
+                     "alike; estimateZ0 inverts the same diabatic law. The incomplete-gamma mass limit and the median smoothing statistics are not decided.")
+    R.trusted = [TRUST, "scipy.special.gamma is the Gamma function", "physical domain: zm, z0, ws, ustar, sigma_v, grid_res > 0"]
+    R.add(km_obligations(P))
+    o2, km = similarity_obligations(P)
+    R.add([o for o in o2 if "ffm_kormann_meixner" in o.site and o.rule == "R-SIBLING"])
+    R.analysed = {"files": ["src/bldfm/ffm_kormann_meixner.py"], "functions": ["estimateFootprint", "estimateZ0", "_phiM", "_phiC", "_psiM", "_mParam", "_nParam"], "paths": 0}
+    return R, "closed-form equality with symbolic exponents; dtype flow; sign/zero structure"
